@@ -6,7 +6,7 @@
    runs (hostile streams), not proved. *)
 From Coq Require Import ZArith List Bool.
 From Dmd Require Import Model.Bits Model.Types Model.Mem Model.Bus Model.Decode Model.Cpu.
-From Dmd Require Import Proofs.BusProofs Proofs.VideoProofs Proofs.DecodeProofs Proofs.SafeBus Proofs.SafeCpu Proofs.SafeStep.
+From Dmd Require Import Proofs.BusProofs Proofs.VideoProofs Proofs.DecodeProofs Proofs.SafeBus Proofs.SafeCpu Proofs.SafeStep Proofs.LoopTerm.
 Open Scope Z_scope.
 
 (* every bus access the host API or the CPU can request -- any address, any width, reads, writes, instruction
@@ -52,14 +52,17 @@ Print Assumptions C12_video_fetch_never_panics.
    step), and no ROM byte changes.  Well formed (mwf): the four memories have their documented geometry and hold
    byte values, the mouse coordinates are 16-bit, the 16 registers are 32-bit values -- which is what the Rust types
    (Vec<u8>, u16, u32) guarantee of every state the implementation can be in.
-   OutOfFuel stands for "one of the three loops (MOVBLW, STREND, the block-move list) ran for more than 1,048,600
-   iterations": that it cannot happen is not proved here (see C12_partial below), it is checked by the runs. *)
+   OutOfFuel stands for "one of the three loops (MOVBLW, STREND, the block-move list of a context switch) ran for
+   more than 1,048,600 iterations" or "the decoder recursed past its bound": neither can happen.  The loops read
+   the bus at consecutive addresses from R0 and every mapped region (the largest is the 1 MiB of RAM) is followed by
+   unmapped addresses, where the read reports a bus error and the loop ends (Proofs/LoopTerm.v) -- so every
+   instruction is executed in a bounded number of iterations whatever the registers and memory hold. *)
 Theorem C12_step_with_error_never_panics :
   forall now m, mwf m ->
     match step_with_error now m with
     | Ok _ m' | Err _ m' => mwf m' /\ rom (mbus m') = rom (mbus m)
     | Panic => False
-    | OutOfFuel => True
+    | OutOfFuel => False
     end.
 Proof. exact step_with_error_never_panics. Qed.
 Print Assumptions C12_step_with_error_never_panics.
@@ -69,7 +72,7 @@ Theorem C12_no_step_of_any_run_panics :
   forall nows m, mwf m ->
     match run_steps_err nows m with
     | TGood m' => mwf m' /\ rom (mbus m') = rom (mbus m)
-    | TFuel => True
+    | TFuel => False
     | TPanic => False
     end.
 Proof. exact all_steps_never_panic. Qed.
@@ -90,3 +93,19 @@ Theorem C12_interrupt_entry_is_safe :
   forall m0 v m, st m0 m -> 0 <= v -> safe m0 (fun _ => True) (on_interrupt v m).
 Proof. intros. now apply safe_on_interrupt. Qed.
 Print Assumptions C12_interrupt_entry_is_safe.
+
+(* the data-driven loops end within the bound: a run of successful bus accesses at consecutive addresses
+   (stride 1 to 4) from any 32-bit address is at most 1 MiB (+3) long, which is less than the iteration bound *)
+Theorem C12_mapped_runs_are_short :
+  forall d a b n, 1 <= d <= 4 -> 0 <= a < 4294967296 -> chain d a b n -> d * n <= 1048576 + 3.
+Proof. exact chain_bound. Qed.
+Print Assumptions C12_mapped_runs_are_short.
+
+Theorem C12_loops_end_within_bound :
+  forall m0 m, st m0 m ->
+    safe m0 (fun _ => True) (movblw_loop m) /\ safe m0 (fun _ => True) (strend_loop m)
+    /\ safe m0 (fun _ => True) (cs3_loop m).
+Proof.
+  intros m0 m S. split; [apply safe_movblw_loop; auto | split; [apply safe_strend_loop; auto | apply safe_cs3_loop; auto]].
+Qed.
+Print Assumptions C12_loops_end_within_bound.
